@@ -11,6 +11,7 @@ package props
 import (
 	"encoding/json"
 	"math/big"
+	"strings"
 	"testing"
 
 	"github.com/google/jsonschema-go/jsonschema"
@@ -197,7 +198,8 @@ func checkSchemaCase(c *schemaCase, draft refmodel.Draft, rec *ev.Recorder) *fai
 }
 
 func isHarnessFailure(fl *failure) bool {
-	return fl != nil && len(fl.Msg) >= 8 && fl.Msg[:8] == "HARNESS:"
+	// (the marker may follow a path prefix such as "T/field: ")
+	return fl != nil && strings.Contains(fl.Msg[:min(len(fl.Msg), 200)], "HARNESS:")
 }
 
 func TestC01(t *testing.T) {
